@@ -163,7 +163,9 @@ class C10:
         lines = [l for l in lines if l.ok_shape()]
         reps = vlib.run_driver([l.audit_request() for l in lines])
         worst = {k: 0.0 for k in REPLY}
-        worst_regime = {'dense_sparse': 0.0, 'dphi': 0.0}
+        worst_regime = {'dense_sparse': 0.0, 'dphi': 0.0, 'normal_equations': 0.0}   # region generic, cond(H) <= 1e8
+        worst_cancel = {'normal_equations': 0.0, 'be_data_relative': 0.0, 'descent_excess': -1.0}   # region gradient_cancellation
+        regions = {}
         strata = {}
         samples = []
         sig = set()
@@ -185,9 +187,16 @@ class C10:
             strata['shape ' + shape] = strata.get('shape ' + shape, 0) + 1
             dec_c = 'cond<=1e8' if v[10] <= COND_MAX else ('cond<=1e16' if v[10] <= 1e16 else 'cond>1e16')
             cond_hist[dec_c] = cond_hist.get(dec_c, 0) + 1
-            if v[10] <= COND_MAX:
+            reg = region(v)
+            regions[reg] = regions.get(reg, 0) + 1
+            if reg == 'gradient_cancellation':
+                worst_cancel['normal_equations'] = max(worst_cancel['normal_equations'], *v[1:5])
+                worst_cancel['be_data_relative'] = max(worst_cancel['be_data_relative'], v[20])
+                worst_cancel['descent_excess'] = max(worst_cancel['descent_excess'], v[5])
+            if v[10] <= COND_MAX and reg == 'generic':
                 n_regime += 1
                 worst_regime['dense_sparse'] = max(worst_regime['dense_sparse'], v[8])
+                worst_regime['normal_equations'] = max(worst_regime['normal_equations'], *v[1:5])
                 if v[18] <= COND_MAX:
                     n_regime_dphi += 1
                     worst_regime['dphi'] = max(worst_regime['dphi'], v[12], v[13])
@@ -233,7 +242,7 @@ class C10:
             st_res = self.selftest(lines)
         cov = {'evaluations': len(lines), 'distinct_nontrivial': len(sig), 'rule': self.rule, 'samples': samples,
                'strata_hits': strata, 'cond_histogram': cond_hist, 'audit_samples': len(lines),
-               'audit_worst': worst, 'samples_in_conditioning_regime': n_regime, 'samples_in_dphi_regime': n_regime_dphi, 'worst_in_regime': worst_regime,
+               'audit_worst': worst, 'samples_in_conditioning_regime': n_regime, 'samples_in_dphi_regime': n_regime_dphi, 'worst_in_regime': worst_regime, 'regions': regions, 'worst_in_cancellation_region': worst_cancel,
                't1_colnorm': {'n': t1_n, 'with_clamped_d': t1_d, 'worst_ulp': t1_worst, 'breaks': len(t1_breaks)},
                'oracle_selftest': st_res, 'traces_validated_against_impl': len(lines)}
         return {'coverage': cov, 'findings': findings, 'broken': broken}
